@@ -1,6 +1,7 @@
 package regular
 
 //vsym:pkg github.com/theparanoids/ysshra/gensign/regular
+//vsym:include regular/ctor.go || regular/ctor_bb.go
 //vsym:entry H03_provision
 //vsym:entry H03_lifetime
 //vsym:model github.com/theparanoids/ysshra/sshutils/key.GenerateKeyPair m03GenerateKeyPair
@@ -193,8 +194,7 @@ func H03_provision() {
 		agent.nextBlob++
 		agent.ids = append(agent.ids, &m03Ident{blob: []byte{'B', agent.nextBlob}, comment: c, origin: "pre", run: -1})
 	}
-	h := h03Real{&Handler{certValiditySec: validity, agent: agent, conf: &conf{CertValiditySec: validity,
-		KeyIdentifiers: map[x509.PublicKeyAlgorithm]string{0: "slot"}}}}
+	h := h03Real{rgNewHandler(validity, agent, map[x509.PublicKeyAlgorithm]string{0: "slot"}, "")}
 	param := &csr.ReqParam{LogName: "user", TransID: "t", ClientIP: "1.2.3.4", ReqUser: "u", ReqHost: "h", Attrs: &message.Attributes{}}
 
 	maxRuns := 2
@@ -324,7 +324,7 @@ func H03_lifetime() {
 	validity := vNondetU64("validity")
 	vAssume(vAnd(validity >= 1, validity <= 315360000))
 	agent := &m03Agent{failAt: -1}
-	h := &Handler{certValiditySec: validity, agent: agent, conf: &conf{CertValiditySec: validity}}
+	h := rgNewHandler(validity, agent, nil, "")
 	k, err := h.generateAgentKey()
 	vAssert(err == nil && k != nil, "C03.agent-key-created")
 	vAssert(len(agent.adds) == 1, "C03.private-key-added")
